@@ -25,7 +25,7 @@ theorem gen_size_check : Gen.C10.sizeCheck = "not pk.is_data_size_valid()" ∧
     Gen.C10.sizeValidCompares = ["self.available_data_size() >= 0", "return self.MAX_DATA_SIZE - self.get_data_size()"] := by decide
 theorem gen_check_for_answers :
     Gen.C10.checkCompares = ["len(self._answer_patterns) > 0", "len(p) <= len(data)", "p == data[0:len(p)]",
-      "len(match) >= len(longest_match)", "len(longest_match) > 0"] ∧
+      "len(longest_match) > 0"] ∧
     Gen.C10.checkData = "(pk.header,) + tuple(pk.data)" ∧ Gen.C10.checkMatch = "data[0:len(p)]" ∧
     Gen.C10.checkLoop = "for p in list(self._answer_patterns.keys())" ∧
     Gen.C10.checkFinalCond = "len(longest_match) > 0" ∧
@@ -35,6 +35,9 @@ theorem gen_check_for_answers :
 it is what keeps a link error + reconnect in ANOTHER thread, in the middle of a `send_packet`, from diverting the packet to the
 new link (found with real threads under the virtual-time scheduler, see docs/C10.md). -/
 theorem gen_link_read_once : Gen.C10.sendReadsLinkOnce = true := by decide
+/-- the match comparison of `_check_for_answers` (translated, `Gen.C10.checkBetter`) prefers the strictly longer match -/
+theorem gen_check_better (a b : Nat) :
+    (b < a → Gen.C10.checkBetter a b = true) ∧ (a < b → Gen.C10.checkBetter a b = false) := checkBetter_spec a b
 theorem gen_setpoint : Gen.C10.setpointSendArgs = ["pk"] ∧ Gen.C10.setpointSize ≤ Gen.C10.maxDataSize := by decide
 
 /-! ## longest-prefix cancellation -/
